@@ -91,18 +91,43 @@ def inst_text(lemmas):
 
 
 def instances(ck, fname, lemmas):
+    """-> list of the lemma names that hold"""
     path = ck.gen_v(fname, inst_text(lemmas))
     n0 = len(ck.obligations)
     ok, out = ck.compile_obligations(path, kind="instance")
     if ok:
-        return True
+        return [nm for nm, _ in lemmas]
     # name exactly the broken ones: each lemma alone
     del ck.obligations[n0:]
+    good = []
     for nm, stmt in lemmas:
         p1 = ck.gen_v("%s_%s.v" % (fname[:-2], nm), inst_text([(nm, stmt)]))
         ok1, out1 = ck.coqc(p1, timeout=120)
         ck.oblige("%s:%s" % (fname, nm), ok1, out1[-1500:], kind="instance")
-    return False
+        if ok1:
+            good.append((nm, stmt))
+    # keep a compilable Inst file with the lemmas that still hold, so that the theorems that do not depend on the
+    # broken table are still established (props_split)
+    ck.coqc(ck.gen_v(fname, inst_text(good)), timeout=120)
+    return [nm for nm, _ in good]
+
+
+def props_split(ck, name):
+    """compile every Theorem of coq/Props/<name> in a file of its own (used when an instance lemma is missing):
+    exactly the theorems that need the missing lemma are recorded as broken"""
+    src = open(os.path.join(VERIF, "coq", "Props", name)).read()
+    blocks = re.split(r"(?m)^(?=Theorem )", src)
+    header, blocks = blocks[0], blocks[1:]
+
+    def one(b):
+        thm = re.match(r"Theorem\s+([A-Za-z0-9_']+)", b).group(1)
+        ok, out = ck.coqc(ck.gen_v("Props_%s_%s.v" % (name[:-2], thm), header + b), timeout=300)
+        return thm, ok, out, b
+    with ThreadPoolExecutor(max_workers=8) as ex:
+        for thm, ok, out, b in ex.map(one, blocks):
+            ck.oblige("Props_%s:%s" % (name, thm), ok and ck.gate_text(header + b, name), out[-1500:], kind="theorem")
+            if ok:
+                ck.parse_assumptions(out)
 
 
 # ------------------------------------------------------------------ generators
@@ -273,21 +298,22 @@ def run_escape(ck):
         g = ck.gen_v("Gen_Escape.v", d["coq"])
         gen_ok, out = ck.coqc(g)
         ck.oblige("Gen_Escape.v:compiles", gen_ok, out[-1500:], kind="translate")
-    inst_ok = False
     if gen_ok:
-        inst_ok = instances(ck, "Inst_Escape.v", INST_TABLES)
+        held = instances(ck, "Inst_Escape.v", INST_TABLES)
         instances(ck, "Inst_EscapeNum.v", INST_NUM)
-    # ---- 3: theorems
-    if inst_ok:
-        ck.compile_props("C01_escape.v")
+        # ---- 3: theorems
+        if len(held) == len(INST_TABLES):
+            ck.compile_props("C01_escape.v")
+        else:
+            props_split(ck, "C01_escape.v")
     else:
         for nm in ("C01_attr", "C01_attr_printable", "C01_text", "C01_text_strong", "C01_text_printable",
                    "C01_text_cdata_refuted", "C01_int"):
             ck.oblige("Props_C01_escape.v:" + nm, False,
-                      "not established: the tables translated from nml.py are not the reference tables "
-                      "(see the Inst_Escape.v obligations) or could not be translated", kind="theorem")
+                      "not established: the text-layer functions of nml.py could not be translated "
+                      "(see translate:tr_escape)", kind="theorem")
     # ---- 4/5: inputs
-    n_str = ck.n(700, 9000)
+    n_str = ck.n(700, 30000)
     kinds = [("printable", 0.40), ("cdata-complete", 0.12), ("cdata-incomplete", 0.12), ("tabcr", 0.14), ("ctrl", 0.06),
              ("nonascii", 0.16)]
     strings = [(s, "fixed") for s in FIXED_STRINGS]
@@ -299,10 +325,10 @@ def run_escape(ck):
             if r < acc:
                 break
         strings.append((gen_string(rng, k), k))
-    raw_attr = FIXED_RAW_ATTR + [gen_raw_attr(rng) for _ in range(ck.n(300, 3000))]
-    raw_text = FIXED_RAW_TEXT + [gen_raw_text(rng) for _ in range(ck.n(300, 3000))]
+    raw_attr = FIXED_RAW_ATTR + [gen_raw_attr(rng) for _ in range(ck.n(300, 8000))]
+    raw_text = FIXED_RAW_TEXT + [gen_raw_text(rng) for _ in range(ck.n(300, 8000))]
     ints = list(FIXED_INTS)
-    for _ in range(ck.n(150, 2000)):
+    for _ in range(ck.n(150, 5000)):
         mag = rng.choice([1, 2, 3, 5, 9, 10, 18, 19, 20, 40])
         ints.append(rng.randrange(-10 ** mag, 10 ** mag))
     raw_ints = list(FIXED_RAW_INTS)
@@ -311,7 +337,7 @@ def run_escape(ck):
                         + rng.choice(["", "", "", "x", ".", "-"]))
     raw_ints = [t for t in raw_ints if t.strip() == t and "_" not in t]     # blanks / '_' of int() are not modelled
     floats = list(FIXED_FLOATS)
-    for _ in range(ck.n(400, 20000)):
+    for _ in range(ck.n(400, 100000)):
         k = rng.randrange(0, 16)
         mag = rng.choice([0, 0, 1, 2, 3, 6])
         m = rng.randrange(-10 ** (k + mag), 10 ** (k + mag) + 1)
@@ -351,6 +377,10 @@ def run_escape(ck):
                            "a string member written as element text is not read back verbatim (quote_xml -> XML parser)",
                            input={"string": s, "written": r["qx"]}, expected=s, observed=r["back_text"],
                            broken="Inst_Escape.v:gen_xml_repl_is_ref")
+    failed = [o["name"] for o in ck.obligations if not o["ok"] and o["kind"] in ("instance", "translate")]
+    for w in ck.witnesses:
+        if w.get("broken"):
+            w["broken"] = ", ".join(failed) if failed else None
     if not demonstrated:
         # the stored witness of the known finding no longer fails: the finding is stale -> the refutation theorem is wrong
         ck.oblige("known-finding:" + KNOWN_CDATA_KEY + ":re-demonstrated", False,
